@@ -61,8 +61,18 @@ func (w *World) translate(fn *ssa.Function, c *Contract) (vc *VC, err error) {
 	t.next(t.cur)
 	for _, g := range sortedGhosts(w.CS) {
 		if g.IsVar {
-			s, _, _ := t.ghostSort(g)
-			t.heapGet(t.cur, "G_"+g.Name, s)
+			func() {
+				defer func() {
+					if r := recover(); r != nil {
+						if _, ok := r.(evalErr); !ok {
+							panic(r)
+						}
+						// ghost over types of a package that is not loaded in this run: unused here
+					}
+				}()
+				s, _, _ := t.ghostSort(g)
+				t.heapGet(t.cur, "G_"+g.Name, s)
+			}()
 		}
 	}
 	for _, p := range fn.Params {
@@ -92,6 +102,9 @@ func (w *World) translate(fn *ssa.Function, c *Contract) (vc *VC, err error) {
 		env := &Env{t: t, vars: map[string]Val{}, pkg: ax.Pkg, pure: true}
 		s, e := env.evalBool(ax.E)
 		if e != nil {
+			if strings.Contains(e.Error(), "unknown type") {
+				continue // axiom over a package that is not loaded in this run
+			}
 			return nil, fmt.Errorf("%s:%d: axiom: %v", ax.File, ax.Line, e)
 		}
 		vc.FunDecl = append(vc.FunDecl, fmt.Sprintf("(assert %s)", s))
@@ -245,7 +258,7 @@ func (t *Tr) envAt(b *ssa.BasicBlock) *Env {
 		if a.Kind == aStruct || a.Kind == aArray {
 			env.vars[fv.Name()] = Val{Ty: pt.Elem(), Loc: a}
 		} else {
-			env.vars[fv.Name()] = Val{T: t.load(t.cur, a), Ty: pt.Elem()}
+			env.vars[fv.Name()] = Val{Ty: pt.Elem(), Cell: a}
 		}
 	}
 	if b != nil {
@@ -287,7 +300,7 @@ func (t *Tr) bindLocals(env *Env, b *ssa.BasicBlock) {
 			if a.Kind == aStruct || a.Kind == aArray {
 				env.vars[name] = Val{Ty: elem, Loc: a}
 			} else {
-				env.vars[name] = Val{T: t.load(t.cur, a), Ty: elem}
+				env.vars[name] = Val{Ty: elem, Cell: a}
 			}
 			continue
 		}
